@@ -164,6 +164,25 @@ def run_case(kind, params):
         keep = np.asarray(params["keep"])
         r = runner(frame, pattern, peaks[keep], b=params["bufs"][0], upsample=us)
         msgs += compare_outputs(base, r, keep, range(len(keep)), "other peaks removed", us)
+        # the batch helpers (peak list handed over as is): a peak just left / right of the frame together with the position one
+        # row up / down and one frame width across -- different windows that share the flat pixel number y * width + x
+        if params.get("alias"):
+            from libertem_blobfinder.common import correlation as cc
+            fn = cc.process_frames_fast if params["pipeline"] == "fast" else cc.process_frames_full
+            c_ = pattern.get_crop_size()
+            w_ = shape[1]
+            y0 = int(params["alias"])
+            for x0 in (w_ + max(0, c_ - 2), -max(1, c_ - 1)):
+                pair = np.array([[y0, x0], [y0 + (1 if x0 >= w_ else -1), x0 - w_ if x0 >= w_ else x0 + w_]])
+                lst = np.concatenate([peaks[:2], pair, peaks[2:4]])
+                both = fn(pattern, frame[np.newaxis], lst, upsample=us)
+                for j_ in (len(peaks[:2]), len(peaks[:2]) + 1):
+                    one = fn(pattern, frame[np.newaxis], lst[j_:j_ + 1], upsample=us)
+                    for nm_, a_, b_ in zip(("centres", "refineds", "heights", "elevations"), both, one):
+                        if not np.array_equal(np.asarray(a_)[0, j_], np.asarray(b_)[0, 0], equal_nan=True):
+                            msgs.append(f"{fn.__name__}: {nm_} of peak {lst[j_].tolist()} is {np.asarray(a_)[0, j_].tolist()} within the list "
+                                        f"{lst.tolist()} and {np.asarray(b_)[0, 0].tolist()} when it is processed alone")
+                            break
     except Exception as e:
         msgs.append(f"implementation raised {type(e).__name__}: {e}")
     return msgs[:8]
@@ -191,7 +210,8 @@ def gen_case(rng, k):
             "peaks": peaks.tolist(), "bufs": bufs, "perm": rng.permutation(n).tolist(),
             "keep": keep.tolist(), "upsample": [False, False, 5, True][k % 4],
             "pipeline": "fast" if k % 2 == 0 else "full",
-            "scale": [None, 1e-6, None, 1e-3, None, 1e-9][(k // 7) % 6]}
+            "scale": [None, 1e-6, None, 1e-3, None, 1e-9][(k // 7) % 6],
+            "alias": int(rng.integers(2, shape[0] - 2)) if (k // 2) % 3 == 1 else None}
 
 
 def search(ctx, boost=1, focus=()):
